@@ -62,12 +62,15 @@ THEOREMS = [
 ]
 
 KNOWN_CHAR_SYM = "key:stored-char-equals-symbol"
+KNOWN_STRCHAR_SYM = "key:stored-string-member-char-equals-symbol"
 
 VARS = ["da", "db", "dc", "dd"]
 FNS = ["f1", "f2"]
 
 # ----------------------------------------------------------------------------- universe
-# a key / value spec is a JSON-able pair [kind, payload]; kinds i r c s y L var
+# a key / value spec is a JSON-able pair [kind, payload]; kinds i r c s y L var, and C = a CHARACTER
+# PRODUCED BY INDEXING A STRING ("az"@0: klongpy.backends.numpy_backend.KGChar, the class of the members of
+# a string, as opposed to the parser's klongpy.types.KGChar for 0ca) - the same key as 0ca
 
 KEY_GROUPS = [     # keys that Python compares equal sit in one group together with near misses
     [["i", 1], ["r", 1.0], ["i", -1], ["r", 1.5]],
@@ -103,6 +106,14 @@ KEY_GROUPS += [
     [["i", B53 + 1], ["i", B53 + 3], ["r", -2.5], ["i", 1], ["r", 1.5]],
 ]
 BIGINT_GROUPS = KEY_GROUPS[-3:]
+# one character from its different producers (parser literal, member of a string, one-character string)
+# next to the symbol spelled alike
+KEY_GROUPS += [
+    [["C", "a"], ["c", "a"], ["y", "a"], ["s", "a"], ["C", "A"]],
+    [["C", "q"], ["y", "q"], ["s", "q"], ["c", "q"], ["C", "r"]],
+    [["C", " "], ["c", " "], ["s", " "], ["C", '"'], ["c", '"']],
+]
+STRCHAR_GROUPS = KEY_GROUPS[-3:]
 
 
 def is_big(k):
@@ -154,7 +165,7 @@ def raw_key_tok(k):
     if kind == "r":
         num, den = float(p).as_integer_ratio()
         return f"r{num}/{den.bit_length() - 1}"
-    return {"c": "c", "s": "s", "y": "y"}[kind] + _hex(p)
+    return {"c": "c", "C": "c", "s": "s", "y": "y"}[kind] + _hex(p)
 
 
 def nkey_tok(k):
@@ -162,7 +173,7 @@ def nkey_tok(k):
     kind, p = k
     if kind in ("i", "r"):
         return _num_tok(float(p) if kind == "r" else int(p))
-    if kind in ("c", "s"):
+    if kind in ("c", "s", "C"):
         return "t" + _hex(p)
     return "y" + _hex(p)
 
@@ -191,6 +202,10 @@ def src(v, in_list):
         s = repr(float(p))
     elif kind == "c":
         return "0c" + p
+    elif kind == "C":
+        if in_list:
+            return "0c" + p          # (a list literal cannot hold an expression)
+        return '("' + (p + "z").replace('"', '""') + '"@0)'
     elif kind == "s":
         return '"' + p.replace('"', '""') + '"'
     elif kind == "y":
@@ -600,6 +615,8 @@ def make_pool(rng):
         groups[0] = rng.choice(NEGATIVE_GROUPS)
     elif u < 0.65:
         groups[0] = rng.choice(BIGINT_GROUPS)
+    elif u < 0.85:
+        groups[0] = rng.choice(STRCHAR_GROUPS)
     pool = []
     for g in groups:
         pool += rng.sample(g, min(len(g), 3))
@@ -720,7 +737,12 @@ class _Quiet:
 
 def colliding_texts(ops, pool):
     ks = [k for op in ops for k in keys_of(op)] + list(pool)
-    return {k[1] for k in ks if k[0] == "c"} & {k[1] for k in ks if k[0] == "y"}
+    return {k[1] for k in ks if k[0] in ("c", "C")} & {k[1] for k in ks if k[0] == "y"}
+
+
+def strchar_texts(ops, pool):
+    ks = [k for op in ops for k in keys_of(op)] + list(pool)
+    return {k[1] for k in ks if k[0] == "C"} & {k[1] for k in ks if k[0] == "y"}
 
 
 def rename_apart(ops, pool, texts):
@@ -781,7 +803,7 @@ def run_history(ctx, drv, label, ops=None, pool=None, length=0, classify=True, r
         """property failure on the real code; classified as the recorded finding when it vanishes
         once the symbols that share their text with a character key are renamed apart"""
         if classify and vanishes_when_renamed(done, pool):
-            key = KNOWN_CHAR_SYM
+            key = KNOWN_STRCHAR_SYM if strchar_texts(done, pool) else KNOWN_CHAR_SYM
             what = "a stored character key compares equal to a probing symbol with the same text (not vice versa)"
         ctx.oracle_fail(key, case(), expected, observed, what)
         ctx.bump("oracle-failure:" + key)
@@ -903,7 +925,7 @@ def lean_key(k):
     if kind == "r":
         num, den = float(p).as_integer_ratio()
         return f"(.real ({num}) {den.bit_length() - 1})"
-    return f"(.{ {'c': 'chr', 's': 'str', 'y': 'sym'}[kind] } {_lq(_hex(p))})"
+    return f"(.{ {'c': 'chr', 'C': 'chr', 's': 'str', 'y': 'sym'}[kind] } {_lq(_hex(p))})"
 
 
 def _lean_into(op):
@@ -1015,7 +1037,47 @@ WITNESS_CHAR_SYM = [
     dict(op="size", d="da"),
 ]
 
+WITNESS_STRCHAR_SYM = [
+    dict(op="lit", x="da", ps=[]),
+    dict(op="join", side="L", form="cat", d="da", k=["C", "a"], v=["i", 1], into=None),
+    dict(op="find", d="da", k=["y", "a"], into=None),
+    dict(op="join", side="L", form="cat", d="da", k=["y", "a"], v=["i", 2], into=None),
+    dict(op="size", d="da"),
+]
+
 BUILTIN_HISTORIES = [
+    # round 5: an add FROM THE LEFT of a key spelled like an existing key of ANOTHER textual kind (and of
+    # the same kind) must leave the other key alone and must update the dictionary itself
+    [dict(op="lit", x="da", ps=[]),
+     dict(op="alias", x="db", d="da"),
+     dict(op="join", side="L", form="lit", d="da", k=["s", "a"], v=["i", 1], into=None),
+     dict(op="join", side="R", form="lit", d="da", k=["y", "a"], v=["i", 100], into=None),
+     dict(op="find", d="db", k=["s", "a"], into=None),
+     dict(op="size", d="db"),
+     dict(op="join", side="L", form="lit", d="da", k=["y", "q"], v=["i", 2], into=None),
+     dict(op="join", side="R", form="lit", d="db", k=["s", "q"], v=["i", 3], into=None),
+     dict(op="join", side="R", form="lit", d="db", k=["c", "q"], v=["i", 4], into=None),
+     dict(op="join", side="R", form="cat", d="da", k=["s", "abc"], v=["s", "x"], into=None),
+     dict(op="join", side="R", form="lit", d="da", k=["y", "abc"], v=["i", 5], into="dc"),
+     dict(op="join", side="R", form="lit", d="dc", k=["i", 2], v=["i", 20], into=None),
+     dict(op="join", side="R", form="lit", d="dc", k=["r", 2.0], v=["i", 21], into=None),
+     dict(op="each", d="da", form="verb")],
+    # round 5: ONE character from its different producers is ONE key: parser literal 0ca, member of a
+    # string ("az"@0), one-character string "a"
+    [dict(op="lit", x="da", ps=[[["c", "a"], ["i", 1]], [["c", "b"], ["i", 2]]]),
+     dict(op="find", d="da", k=["C", "a"], into=None),
+     dict(op="join", side="L", form="cat", d="da", k=["C", "b"], v=["i", 20], into=None),
+     dict(op="size", d="da"),
+     dict(op="find", d="da", k=["c", "b"], into=None),
+     dict(op="remove", d="da", k=["C", "a"], into=None),
+     dict(op="find", d="da", k=["c", "a"], into=None),
+     dict(op="join", side="R", form="cat", d="da", k=["C", "k"], v=["i", 7], into=None),
+     dict(op="find", d="da", k=["c", "k"], into=None),
+     dict(op="find", d="da", k=["s", "k"], into=None),
+     dict(op="join", side="L", form="lit", d="da", k=["c", "k"], v=["i", 8], into=None),
+     dict(op="join", side="L", form="lit", d="da", k=["s", "k"], v=["i", 9], into=None),
+     dict(op="size", d="da"),
+     dict(op="each", d="da", form="lambda")],
     # alias, update through the alias, overwrite after remove
     [dict(op="lit", x="da", ps=[[["i", 1], ["i", 2]], [["s", "a"], ["s", "abc"]]]),
      dict(op="alias", x="db", d="da"),
@@ -1122,12 +1184,13 @@ def run(ctx):
     try:
         # 1. the recorded finding's witness, replayed on the real code on every run
         run_history(ctx, drv, "witness", ops=WITNESS_CHAR_SYM)
+        run_history(ctx, drv, "witness", ops=WITNESS_STRCHAR_SYM)
         ctx.extra["char_symbol_finding_reproduces"] = bool(ctx.known_hits) or any(
             f["key"] == KNOWN_CHAR_SYM for f in ctx.oracle_failures)
         # 2. corpus + built-in histories
-        for h in BUILTIN_HISTORIES[:3]:
+        for h in BUILTIN_HISTORIES[2:5]:
             run_history(ctx, drv, "builtin", ops=h, record=recorded)
-        for h in BUILTIN_HISTORIES[3:]:
+        for h in BUILTIN_HISTORIES[:2] + BUILTIN_HISTORIES[5:]:
             run_history(ctx, drv, "builtin", ops=h)
         cdir = common.CORPUS / "C10"
         if cdir.exists():
